@@ -7,3 +7,5 @@ import ReuseVerif.Model.Glob
 import ReuseVerif.Spec.Glob
 import ReuseVerif.Model.Dep5
 import ReuseVerif.Spec.Dep5
+import ReuseVerif.Model.TomlValidate
+import ReuseVerif.Spec.TomlValidate
